@@ -430,7 +430,37 @@ def r14(ctx):
     ctx.inst(R, "put_slice:rest-decided-by-the-bytes", bool(rets) and not bad, ps.span, "the rest is stashed whenever bytes remain after the copy" if rets and not bad else
              (f"ReadHalf::put_slice decides whether something is left from the caller's buffer ({sorted(bad)}) instead of from the bytes that remain after the copy: "
               "on a partly filled ReadBuf the tail of a segment is silently dropped" if bad else "put_slice no longer returns Option<rest>: re-derive"))
-    ctx.floor(R, 1)
+    # a read that copied stashed bytes into the caller's buffer returns them: nothing on the way from that copy to the return can
+    # answer Pending (tokio hands `read()` a fresh ReadBuf on every poll - bytes copied before a Pending are lost)
+    pr = ctx.w.bodies.get("turmoil::net::tcp::stream::ReadHalf::poll_read_priv")
+    if pr:
+        copies = [bb for bb, t in pr.calls("turmoil::net::tcp::stream::ReadHalf::put_slice")]
+        polls = [bb for bb, t in pr.calls(re.compile(r"::poll_recv$|::poll_recv_many$|Future>::poll$"))]
+        again = [(c, p_) for c in copies for p_ in polls if p_ in pr.reachable(c) and p_ != c]
+        ctx.inst(R, "poll_read:a-copy-is-returned", bool(copies) and bool(polls) and not again, pr.term(again[0][0])["s"] if again else pr.span,
+                 "after bytes were copied out the read returns Ready without polling the channel again" if copies and polls and not again else
+                 ("ReadHalf::poll_read_priv polls the channel after it already copied stashed bytes into the caller's buffer: when no segment is queued "
+                  "the poll answers Pending and the copied bytes are lost from the stream (ABCDEFGH, IJ is read as ABC..IJ)" if again else
+                  "poll_read_priv: put_slice / poll_recv sites not found: re-derive"))
+    elif ctx.strict:
+        ctx.bad(R, "anchor-missing:poll_read_priv", "", "ReadHalf::poll_read_priv not found")
+    # every segment handed to the reorder buffer enters it
+    sb = ctx.w.bodies.get("turmoil::host::StreamSocket::buffer")
+    if sb:
+        ins = [bb for bb, t in sb.calls(re.compile(r"^indexmap::IndexMap::insert$|BTreeMap::insert$|HashMap::insert$")) if "turmoil::host::StreamSocket::buf" in _fields(sb, t["args"][0])]
+        skip = [x for x in sb.exits() if not sb.dominated_by_any(x, blocks=ins)] if ins else sb.exits()
+        ctx.inst(R, "reorder-buffer:every-segment-enters", bool(ins) and not skip, sb.term(skip[0]).get("s", sb.span) if skip else sb.span,
+                 "no path through StreamSocket::buffer returns without storing the segment" if ins and not skip else
+                 "StreamSocket::buffer can return without inserting the segment into the reorder buffer: a segment (a FIN is not credit-gated) that arrives "
+                 "ahead of the ones before it is silently discarded - the reader gets every byte but never end-of-file")
+    elif ctx.strict:
+        ctx.bad(R, "anchor-missing:StreamSocket::buffer", "", "StreamSocket::buffer not found")
+    ctx.floor(R, 3)
+
+
+def _fields(b, op):
+    o = deref_origin(b, op)
+    return root_place(b, o["p"])[1] if o["k"] == "place" else []
 
 
 def run(ctx):
